@@ -73,7 +73,7 @@ fn on_alloc_refused(size: usize) {
             if files.last() != Some(&file) {
                 files.push(file);
             }
-            if files.len() >= 4 {
+            if files.len() >= 8 {
                 break;
             }
         }
